@@ -28,12 +28,15 @@ import (
 //
 //	0 normal; 1 mint reverts; 2 mint reports success but credits nothing; 5 mint credits one unit
 //	too many; 3 burn reverts; 4 burn reports success but debits nothing; 6 burn debits one unit
-//	too few; 7 contract creation fails.
+//	too few; 7 contract creation fails; 8 the beacon's upgradeTo reverts.
 type evmDouble struct {
 	ak        *authkeeper.AccountKeeper
 	contracts map[common.Address]map[common.Address]*big.Int
 	order     []common.Address // deployment order
 	mode      int
+	beacon    common.Address
+	impl      common.Address // implementation the beacon points to (set by upgradeTo)
+	upgrades  int
 }
 
 var _ tokentypes.EVMKeeper = (*evmDouble)(nil)
@@ -118,6 +121,32 @@ func (e *evmDouble) ApplyMessage(ctx sdk.Context, msg core.Message, _ vm.EVMLogg
 		e.contracts[addr] = map[common.Address]*big.Int{}
 		e.order = append(e.order, addr)
 		return &tokentypes.Result{Hash: addr.Hex()}, nil
+	}
+	if *msg.To() == e.beacon && e.beacon != (common.Address{}) {
+		data := msg.Data()
+		babi := contracts.BeaconContract.ABI
+		if len(data) < 4 {
+			return nil, fmt.Errorf("short call data")
+		}
+		method, err := babi.MethodById(data[:4])
+		if err != nil {
+			return nil, err
+		}
+		if method.Name != contracts.MethodUpgradeTo {
+			return nil, fmt.Errorf("unknown beacon method %s", method.Name)
+		}
+		args, err := method.Inputs.Unpack(data[4:])
+		if err != nil {
+			return nil, err
+		}
+		if e.mode == 8 {
+			return &tokentypes.Result{VMError: vm.ErrExecutionReverted.Error()}, nil
+		}
+		if commit {
+			e.impl = args[0].(common.Address)
+			e.upgrades++
+		}
+		return &tokentypes.Result{Hash: e.beacon.Hex()}, nil
 	}
 	ledger, ok := e.contracts[*msg.To()]
 	if !ok {
